@@ -60,6 +60,31 @@ func layoutPubkey(c *ctx) {
 		c.line("pubenc "+keyField(k)+" c", hx.Hex(k.Bytes()))
 		c.line("pubenc "+keyField(k)+" u", hx.Hex(k.UncompressedBytes()))
 	}
+	// private-key bytes: NewPrivateKeyFromBytes on 31/32/33 bytes and on small / large scalars
+	{
+		pb := r.Bytes(32)
+		switch r.Intn(6) {
+		case 0:
+			pb = pb[:31]
+		case 1:
+			pb = append(pb, 1)
+		case 2:
+			pb = make([]byte, 32)
+			pb[31] = byte(r.Intn(3))
+		case 3:
+			pb = priv.Bytes()
+		}
+		c.line("privdec "+hx.Hex(pb), hx.Safe(func() string {
+			k, err := keys.NewPrivateKeyFromBytes(pb)
+			if err != nil {
+				return "err"
+			}
+			if h, err := keys.NewPrivateKeyFromHex(k.String()); err != nil || !bytes.Equal(h.Bytes(), k.Bytes()) {
+				c.fail("privkey-roundtrip", "NewPrivateKeyFromHex(String()) of %x", pb)
+			}
+			return hx.Hex(k.Bytes())
+		}))
+	}
 	var raw []byte
 	kind := r.Intn(14)
 	switch kind {
@@ -175,7 +200,7 @@ func layoutSig(c *ctx) {
 	c.line(fmt.Sprintf("sigjoin %s %s", rr, ss), hx.Hex(sig))
 	// the split: lengths around 64, valid and damaged signatures
 	s2 := append([]byte{}, sig...)
-	switch r.Intn(6) {
+	switch r.Intn(7) {
 	case 0:
 		s2 = s2[:63]
 	case 1:
@@ -186,6 +211,8 @@ func layoutSig(c *ctx) {
 		s2[r.Intn(64)] ^= 1 << uint(r.Intn(8))
 	case 4: // s|r
 		s2 = append(append([]byte{}, sig[32:]...), sig[:32]...)
+	case 5: // sig || anything
+		s2 = append(s2, r.Bytes(1+r.Intn(40))...)
 	}
 	obs := "err"
 	var sr, sv *big.Int
@@ -197,6 +224,21 @@ func layoutSig(c *ctx) {
 	// the real Verify must be ecdsa.Verify on exactly this split, and false for any other length
 	got := pub.Verify(s2, digest[:])
 	want := len(s2) == 64 && ecdsa.Verify((*ecdsa.PublicKey)(pub), digest[:], sr, sv)
+	// the model's Verify, with ecdsa.Verify's answer on the first 64 bytes as the value of its parameter
+	{
+		e := "0"
+		if len(s2) >= 64 && ecdsa.Verify((*ecdsa.PublicKey)(pub), digest[:], new(big.Int).SetBytes(s2[:32]), new(big.Int).SetBytes(s2[32:64])) {
+			e = "1"
+		}
+		kf := keyField(pub)
+		if r.Chance(1, 10) {
+			kf = "inf"
+			got2 := (&keys.PublicKey{}).Verify(s2, digest[:])
+			c.line("sigverify inf "+hx.Hex(s2)+" "+e, map[bool]string{true: "1", false: "0"}[got2])
+		} else {
+			c.line("sigverify "+kf+" "+hx.Hex(s2)+" "+e, map[bool]string{true: "1", false: "0"}[got])
+		}
+	}
 	if got != want {
 		c.fail("sig-layout", "Verify(%x) = %v, ecdsa.Verify on the r|s split says %v", s2, got, want)
 	}
